@@ -398,6 +398,10 @@ func recordH3(r *hk.Run, o h3obs) {
 		r.Fail(hk.Failure{Sig: fmt.Sprintf("peer-not-told:h3:%s:%s:after=%s", o.Spec.Name, o.Kind, o.StepName),
 			What: "the request stream was not cancelled towards the peer (no STOP_SENDING / RESET_STREAM): the handler kept running", Input: o})
 	}
+	if o.Harness == "" && o.Returned && o.Spec.Limit && o.Pos <= 1 && !o.Racy && o.Kind != "none" && !realTimer(o.Kind) && o.Arrived {
+		r.Fail(hk.Failure{Sig: fmt.Sprintf("sent-after-cancel:h3:%s:%s:after=%s", o.Spec.Name, o.Kind, o.StepName),
+			What: "the request, whose context had ended while it waited for a request stream, was sent once a stream became free", Input: o})
+	}
 	r.Count("h3:" + o.Kind)
 	r.Count("h3:scenario:" + o.Spec.Name)
 	r.Count(fmt.Sprintf("h3:call=%s,body=%s", o.Call, o.Body))
@@ -448,7 +452,7 @@ func emitH3(o h3obs) string {
 		inj = []string{cause3(o.Kind)}
 	}
 	ob := fmt.Sprintf("(mkObs3 %s %s %s %s %s %s)", call, body, told, hk.CoqBool(o.ReqBody), hk.CoqBool(o.ReqBodyClosed), hk.CoqBool(o.FollowOK))
-	return fmt.Sprintf("H3Case (mkCfg3 %s %s) %s %s %s %s %s", hk.CoqBool(o.Spec.Reuse), hk.CoqBool(o.Spec.Upload), hk.CoqBool(realTimer(o.Kind)),
+	return fmt.Sprintf("H3Case (mkCfg3 %s %s %s) %s %s %s %s %s", hk.CoqBool(o.Spec.Reuse), hk.CoqBool(o.Spec.Upload), hk.CoqBool(o.Spec.Limit), hk.CoqBool(realTimer(o.Kind)),
 		coqLabels(o.Pre), coqLabels(o.RacyLab), coqLabels(inj), ob)
 }
 
@@ -614,4 +618,83 @@ func recordBackoff(r *hk.Run, o backoffObs) {
 		}
 	}
 	r.Add(hk.Case{Coq: coq, Desc: map[string]interface{}{"kind": "backoff", "obs": o}}, "backoff|"+o.Spec.Name+"|"+o.Spec.Kind, true)
+}
+
+func recordTLSStall(r *hk.Run, o tlsStallObs) {
+	where := "tlsstall:" + o.Spec.Name + ":" + o.Spec.Kind
+	fail := func(sig, what string) { r.Fail(hk.Failure{Sig: sig + ":" + where, What: what, Input: o}) }
+	if o.Harness != "" {
+		fail("harness", "the scripted scenario could not be played: "+o.Harness)
+	} else {
+		want := map[string]string{"cancel": "cause:canceled", "deadline": "cause:deadline"}[o.Spec.Kind]
+		if !o.Returned {
+			fail("hang", fmt.Sprintf("the context ended during a TLS handshake the peer never answers: the call did not return within %v (it ended as %q after %d ms or later)", 2*timerDelay, o.Call, o.ReturnMs))
+		}
+		if o.Call != want {
+			fail("wrong-error", "the call did not fail with an error identifying the cancellation: "+o.Call+" "+o.CallErr)
+		}
+		if !o.ConnClosed {
+			fail("dial-never-ends", "the connection whose handshake was never answered was still open long after the context ended and TLSHandshakeTimeout passed")
+		}
+		if !o.Quiesced {
+			fail("still-running", "library goroutines still alive: "+strings.Join(o.Stuck, " | "))
+		}
+		if len(o.Leaked) > 0 {
+			fail("leak", "library goroutines alive afterwards: "+strings.Join(o.Leaked, " | "))
+		}
+		if !o.FollowOK {
+			fail("follow-up", "a follow-up request on the same client (MaxConnsPerHost 1) failed: "+o.FollowEr)
+		}
+	}
+	r.Count("tlsstall:" + o.Spec.Name)
+	coq := ""
+	if o.Harness == "" && o.Returned {
+		if e, ok := coqErr(o.Call); ok {
+			c := map[string]string{"cancel": "CCanceled", "deadline": "CDeadline"}[o.Spec.Kind]
+			if o.Spec.ForceH2 {
+				// the request waits for the pool's dial: no stream exists yet
+				coq = fmt.Sprintf("H2Case false false [] [] [(YCancel %s)] (mkObs2 (OErr %s) ONone None false false)", c, e)
+			} else {
+				// the HTTP/1.1 dial is detached; its handshake timeout ends it afterwards
+				coq = fmt.Sprintf("H1Case (mkCfg1 false false true) false false [] [] [(XCancel %s)] [(XDialDone false)] (mkObs1 (OErr %s) ONone false 0%%nat false false)", c, e)
+			}
+		}
+	}
+	r.Add(hk.Case{Coq: coq, Desc: map[string]interface{}{"kind": "tlsstall", "obs": o}}, "tlsstall|"+o.Spec.Name+"|"+o.Spec.Kind, true)
+}
+
+func recordHpack(r *hk.Run, o hpackObs) {
+	where := "hpack:" + o.Spec.Name + ":" + o.Spec.Kind
+	fail := func(sig, what string) { r.Fail(hk.Failure{Sig: sig + ":" + where, What: what, Input: o}) }
+	if o.Harness != "" {
+		fail("harness", "the scripted scenario could not be played: "+o.Harness)
+	} else {
+		want := map[string]string{"cancel": "cause:canceled", "deadline": "cause:deadline"}[o.Spec.Kind]
+		if o.B != want {
+			fail("wrong-error", "the request whose context ended while its headers were being written ended as "+o.B)
+		}
+		if o.HpackErr != "" {
+			fail("hpack-desync", "a later request's header block did not decode at the peer (COMPRESSION_ERROR at a real server): the cancelled request was fed to the connection's HPACK encoder but its HEADERS were never sent: "+o.HpackErr)
+		}
+		if !o.FollowOK {
+			fail("follow-up", "a request on the same connection after the cancelled one failed: "+o.FollowEr)
+		} else if o.FollowHd != "alpha-alpha-alpha" {
+			fail("hpack-desync", fmt.Sprintf("a later request's indexed header field decoded as %q at the peer", o.FollowHd))
+		}
+		// (the peer answers the cancelled request at once when its HEADERS do arrive: the stream may be
+		// closed on both sides before the cancellation is processed, so no RST_STREAM is owed here)
+		if len(o.Leaked) > 0 {
+			fail("leak", "library goroutines alive afterwards: "+strings.Join(o.Leaked, " | "))
+		}
+	}
+	r.Count("hpack:" + o.Spec.Kind)
+	coq := ""
+	if o.Harness == "" {
+		dec := make([]string, len(o.Decoded))
+		for i, v := range o.Decoded {
+			dec[i] = hk.CoqNat(v)
+		}
+		coq = fmt.Sprintf("HpackCase %s %s %s", coqLabels(o.Events), hk.CoqList(dec), hk.CoqBool(o.HpackErr == ""))
+	}
+	r.Add(hk.Case{Coq: coq, Desc: map[string]interface{}{"kind": "hpack", "obs": o}}, "hpack|"+o.Spec.Name+"|"+o.Spec.Kind, true)
 }
